@@ -128,6 +128,11 @@ fn san_list(r: &mut Rng, kind: u64) -> (Vec<String>, &'static str) {
 fn check_identity(rep: &mut Report, r: &mut Rng, i: u64) {
     let (sans, sk) = san_list(r, i);
     let now = ::time::OffsetDateTime::now_utc();
+    // the same instant may be handed over in any UTC offset
+    let zone = |r: &mut Rng, t: ::time::OffsetDateTime| -> ::time::OffsetDateTime {
+        let (h, m) = *r.pick(&[(0i8, 0i8), (0, 0), (2, 0), (-8, 0), (5, 30), (14, 0), (-12, 0), (-3, -30)]);
+        t.to_offset(::time::UtcOffset::from_hms(h, m, 0).unwrap())
+    };
     let variant = i / 8 % 6;
     let (res, want_len, want_nb, vk): (Result<Identity, _>, Option<i64>, Option<i64>, String) = match variant {
         0 => (Identity::self_signed(&sans), None, None, "default".into()),
@@ -138,20 +143,20 @@ fn check_identity(rep: &mut Report, r: &mut Rng, i: u64) {
         2 => {
             let nb = now.unix_timestamp() + *r.pick(&[-400 * DAY, -DAY, -1, 0, 1, DAY, 400 * DAY]);
             let len = *r.pick(&[1i64, DAY, 14 * DAY, 15 * DAY]);
-            let nbt = ::time::OffsetDateTime::from_unix_timestamp(nb).unwrap();
-            let nat = ::time::OffsetDateTime::from_unix_timestamp(nb + len).unwrap();
+            let nbt = zone(r, ::time::OffsetDateTime::from_unix_timestamp(nb).unwrap());
+            let nat = zone(r, ::time::OffsetDateTime::from_unix_timestamp(nb + len).unwrap());
             (Identity::self_signed_builder().subject_alt_names(&sans).validity_period(nbt, nat).build(), Some(len), Some(nb), "explicit".into())
         }
         3 => {
             let nb = now.unix_timestamp() - 100;
             let off = *r.pick(&[1i64, 3600, 14 * DAY]);
-            let nbt = ::time::OffsetDateTime::from_unix_timestamp(nb).unwrap();
+            let nbt = zone(r, ::time::OffsetDateTime::from_unix_timestamp(nb).unwrap());
             (Identity::self_signed_builder().subject_alt_names(&sans).not_before(nbt).offset_from_not_before(::time::Duration::seconds(off)).build(), Some(off), Some(nb), "offset".into())
         }
         4 => {
             let nb = now.unix_timestamp() - 5;
             let na = nb + 7 * DAY;
-            (Identity::self_signed_builder().subject_alt_names(&sans).not_before(::time::OffsetDateTime::from_unix_timestamp(nb).unwrap()).not_after(::time::OffsetDateTime::from_unix_timestamp(na).unwrap()).build(), Some(7 * DAY), Some(nb), "nb-na".into())
+            (Identity::self_signed_builder().subject_alt_names(&sans).not_before(zone(r, ::time::OffsetDateTime::from_unix_timestamp(nb).unwrap())).not_after(zone(r, ::time::OffsetDateTime::from_unix_timestamp(na).unwrap())).build(), Some(7 * DAY), Some(nb), "nb-na".into())
         }
         _ => (Identity::self_signed(&sans), None, None, "default2".into()),
     };
